@@ -252,3 +252,24 @@ Theorem C14_conforms_nonvacuous :
     example_rust r s id ws = XOk ts /\ In "PhantomData"%string ts /\ conforms r s m id ts [].
 Proof. exact conforms_nonvacuous. Qed.
 Print Assumptions C14_conforms_nonvacuous.
+
+(** the hypothesis [skeleton_consistent] cannot be dropped: the registry of the known finding F15
+    (corpus/C14/F15_marker_per_instance.json) is generated without error, yet the example of its
+    second same-path entry is not an instance (it lacks the marker the stored item declares) *)
+Theorem C14_conforms_needs_consistency :
+  exists (r : registry) (s : settings) (m : items) (id : N) (ws : words) (ts : tokens),
+    generate r s (types_equal r) = Ok m /\ skeleton_consistentb r s = false /\
+    example_rust r s id ws = XOk ts /\ ~ conforms r s m id ts [].
+Proof. exact conforms_needs_consistency. Qed.
+Print Assumptions C14_conforms_needs_consistency.
+
+(** the literal path of an item-eligible entry ("the generated path without generics") is the
+    location of the item in the module, [root :: <entry path>] -- the key [conforms] looks up *)
+Theorem C14_literal_path :
+  forall (r : registry) (s : settings) (id : N) (X : ty) (p : tokens),
+    resolve r id = Some X -> item_eligible s X = true ->
+    path_ident (t_path X) <> Some "Cow"%string ->
+    Strings.ident_lexb (s_root s) = true ->
+    path_omit_generics r s id = Ok p -> p = TypePath.rel_path (s_root s :: t_path X).
+Proof. exact eligible_literal_path. Qed.
+Print Assumptions C14_literal_path.
